@@ -1422,6 +1422,40 @@ class Item:
                          "why": "std-documented per-element semantics of the adapters; closure bodies inlined verbatim",
                          "drops": "laziness; the iterator's concrete type (value is a Vec)"})
 
+    def drop_plain_logs(self):
+        """after the declared edits: delete remaining `trace!/debug!/info!/warn!/error!(..);` statements whose arguments
+        contain no arithmetic and no indexing (an added plain log line must not put a unit out of reach); statements with
+        such arguments are left in place (the unit then fails to compile = undecided)."""
+        names = {"trace", "debug", "info", "warn", "error"}
+        n = 0
+        i = 0
+        while i < len(self.toks) - 2:
+            t = self.toks[i]
+            if t.s in names and self.toks[i + 1].s == "!" and self.toks[i + 2].s == "(" and t.line != 0:
+                c = match_close(self.toks, i + 2)
+                start = i
+                if start >= 3 and self.toks[start - 1].s == ":" and self.toks[start - 2].s == ":" and self.toks[start - 3].s == "tracing":
+                    start -= 3
+                end = c + 1
+                if end < len(self.toks) and self.toks[end].s == ";":
+                    end += 1
+                else:
+                    i += 1
+                    continue          # used as an expression: leave it
+                args = texts(self.toks[i + 3:c])
+                risky = any(a in ("+", "-", "*", "/", "%", "<<", ">>") or (a == "[" and k > 0 and _IDENT.fullmatch(args[k - 1] or "")) for k, a in enumerate(args))
+                if risky:
+                    i += 1
+                    continue
+                del self.toks[start:end]
+                n += 1
+                i = start
+                continue
+            i += 1
+        if n:
+            self.log.append({"kind": "drop-log", "count": n, "declared": "auto", "args_with_arithmetic_or_index": [],
+                             "why": "logging only (plain arguments); removed automatically"})
+
     def drop_logs(self, expect):
         """delete every `trace!/debug!/info!/warn!/error!( .. );` statement (tracing macros; also the
         `tracing::warn!` path form).  The arguments are NOT kept: any argument containing an
